@@ -15,6 +15,7 @@ from engine import facts as F
 from engine import load
 from engine import lrules as L
 from engine import shape as SH
+from engine import sx
 from engine import terms as T
 
 LEVEL = "other"
@@ -147,49 +148,129 @@ def main(rep, tier, only):
     rep.rule("SIG-UNREG", "unregister connection destructor: unlink first, then the unregister callback exactly once, "
                           "exceptions end in std::terminate", floor=1)
     # ---- signal
+    seen_sig = set()
+
+    def sig_order(db, fn):
+        """decided on the paths of operator() over a twice-unrolled connection list, however the iteration is written (range-for,
+        algorithm::fold, std::accumulate): connection k's function is called with the caller's arguments, in list order, once each;
+        a combining signal calls combiner(state so far, result of connection k) and returns the last state"""
+        u_ = fn["_unit"]
+        cfg = sx.Config(inline_prefixes=("fcppt::algorithm::", "fcppt::range::", "fcppt::signal::detail::"), loop_bound=2, lvalues=True, iter_positions=True)
+        try:
+            ps = sx.Interp(db, cfg).paths(fn, this=("sym", "this"), limit=40)
+        except sx.Unsupported as e:
+            rep.broken("C11 SIG-ORDER %s: %s" % (F.describe(fn)[:80], e))
+            return "broken"
+        void = u_.ty(fn.get("ret")) == "void"
+        params = [p_["name"] for p_ in fn.get("params", [])]
+        sig_args = params if void else params[1:]
+        complete = 0
+        for p in ps:
+            if p.outcome[0] != "return":
+                continue
+            ev = p.events
+            conn = None        # the term of the connection list
+            n = 0
+            for d, v in p.decisions:
+                if not (isinstance(d, tuple) and d and d[0] == "more"):
+                    return "the iteration depends on something other than 'there is another connection': %s" % sx.show(d)
+                if conn is None:
+                    conn = d[1]
+                if d[1] != conn:
+                    return "two different ranges are iterated"
+                n += 1 if v else 0
+            cs = sx.show(conn) if conn is not None else ""
+            if conn is not None and "connections" not in cs:
+                return "the range iterated is %s, not the signal's connections" % cs
+            complete += 1
+
+            def conn_index(t):
+                """k when the callee denotes the function of connection k"""
+                if isinstance(t, tuple) and t and t[0] == "ev":
+                    e = ev[t[1] - 1]
+                    if e[0].split("<")[0].endswith("::function") and len(e[1]) == 1:
+                        t = e[1][0]
+                while isinstance(t, tuple) and t and t[0] == "fld":
+                    t = t[1]
+                if isinstance(t, tuple) and t and t[0] == "elem" and t[1] == conn:
+                    return t[2]
+                return None
+            calls = [(i_, e) for i_, e in enumerate(ev, 1) if e[0].split("<")[0] == "fcppt::function::operator()"]
+            fcalls = [(i_, e) for i_, e in calls if conn_index(e[1][0]) is not None]
+            ccalls = [(i_, e) for i_, e in calls if "combiner_" in sx.show(e[1][0])]
+            if [conn_index(e[1][0]) for i_, e in fcalls] != list(range(n)):
+                return "for %d connections the functions called are those of connections %s" % (n, [conn_index(e[1][0]) for i_, e in fcalls])
+            if any([sx.show(a) for a in e[1][1:]] != sig_args for i_, e in fcalls):
+                return "a connection is not called with the signal's own arguments"
+            if len(calls) != len(fcalls) + len(ccalls):
+                return "calls other than the connections' functions and the combiner"
+            if void:
+                if ccalls:
+                    return "a void signal calls a combiner"
+                continue
+            if len(ccalls) != n:
+                return "for %d connections the combiner is called %d times" % (n, len(ccalls))
+            state = None
+            for k, ((ci, ce), (fi, fe)) in enumerate(zip(ccalls, fcalls)):
+                a = ce[1][1:]
+                if len(a) != 2:
+                    return "the combiner is not called with two arguments"
+                s0 = a[0]
+                if isinstance(s0, tuple) and s0 and s0[0] == "ev" and ev[s0[1] - 1][0].split("<")[0].endswith("strong_typedef::get"):
+                    s0 = ev[s0[1] - 1][1][0]
+                first_ok = sx.show(s0) == params[0] if k == 0 else (isinstance(a[0], tuple) and a[0][:2] == ("ev", state))
+                if not first_ok or not (isinstance(a[1], tuple) and a[1][:2] == ("ev", fi)):
+                    return "step %d calls combiner(%s, %s); a left fold calls combiner(state so far, result of this connection)" % (k, sx.show(a[0]), sx.show(a[1]))
+                state = ci
+            out = p.outcome[1]
+            if n == 0:
+                o0 = out
+                if isinstance(o0, tuple) and o0 and o0[0] == "ev" and ev[o0[1] - 1][0].split("<")[0].endswith("strong_typedef::get"):
+                    o0 = ev[o0[1] - 1][1][0]
+                if sx.show(o0) != params[0]:
+                    return "without connections the result is %s, not the initial value" % sx.show(out)
+            elif not (isinstance(out, tuple) and out[:2] == ("ev", state)):
+                return "the result is %s, not the last combined state" % sx.show(out)
+        if complete < 3:
+            return "fewer than three complete paths (0, 1, 2 connections)"
+        return None
     for fn in db.functions:
         nm = F.fn_name(fn)
         u = fn["_unit"]
         if nm == "fcppt::signal::object::operator()":
-            key = "%s|%s" % (nm, "void" if u.ty(fn.get("ret")) == "void" else "combining")
-            body = fn.get("body")
-            ok = False
-            why = "does not iterate base::connections()"
-            for n in F.walk(body, into_lambdas=False):
-                if n.get("k") == "range_for":
-                    rng = T.norm(u, n.get("range"))
-                    if "connections" in T.show(rng):
-                        calls = [q for (_, _, q) in L.calls_in(u, n.get("body"))]
-                        ok = any(q.endswith("::function") for q in calls)
-                        why = "loop body does not invoke item.function()"
-                if n.get("k") == "call" and T.callee_qn(u, n) == "fcppt::algorithm::fold":
-                    args = n.get("args", [])
-                    if len(args) == 3 and "connections" in T.show(T.norm(u, args[0])):
-                        st = T.show(T.norm(u, args[1]))
-                        lam = T.unwrap(u, args[2])
-                        inner = [q for op in (lam.get("ops", []) if lam and lam.get("k") == "lambda" else []) for (_, _, q) in L.calls_in(u, op.get("body"))]
-                        ok = fn["params"][0]["name"] in st and any(q.endswith("::function") for q in inner)
-                        why = "fold does not start from the initial value or does not invoke item.function()"
-                        # left fold: combiner(state so far, result of this connection), in that order
-                        if ok and lam is not None and lam.get("ops"):
-                            op0 = lam["ops"][0]
-                            pn = [p_["name"] for p_ in op0.get("params", [])]
-                            comb = [c for c in F.walk(op0.get("body")) if c.get("k") == "call" and c.get("recv") is not None and "combiner_" in T.show(T.norm(u, c["recv"]))]
-                            if len(pn) == 2 and len(comb) == 1 and len(comb[0].get("args", [])) == 2:
-                                a0 = T.show(T.norm(u, comb[0]["args"][0]))
-                                a1 = T.show(T.norm(u, comb[0]["args"][1]))
-                                if not (pn[1] in a0 and pn[0] not in a0 and pn[0] in a1 and "function" in a1):
-                                    ok = False
-                                    why = "the combiner is called as combiner(%s, %s); a left fold calls combiner(state so far, result of this connection)" % (a0, a1)
-                            else:
-                                ok = False
-                                why = "the fold step does not call the combiner exactly once with two arguments"
-            if ok:
+            key = "%s|%s|%s" % (nm, "void" if u.ty(fn.get("ret")) == "void" else "combining", (fn.get("rec_targs") or ["?", "?"])[-1].split("::")[-2] if "unregister" in str(fn.get("rec_targs")) else "plain")
+            if key in seen_sig:
+                continue
+            seen_sig.add(key)
+            why = sig_order(db, fn)
+            if why == "broken":
+                continue
+            if why is None:
                 rep.ok("SIG-ORDER", key, F.primary_site(fn), F.describe(fn), how="list-order")
             else:
                 rep.fail("SIG-ORDER", key, F.primary_site(fn), F.describe(fn), why=why)
         if nm.endswith("signal::unregister::detail::concrete_connection::~concrete_connection"):
             items = (fn.get("body") or {}).get("ch", [])
+            # a local lambda that is called as a statement stands for its body at the place of the call
+            lams = {}
+            for st in items:
+                if st.get("k") == "decl":
+                    for v in st.get("ch", []):
+                        li = T.unwrap(u, v.get("init")) if v.get("k") == "var" and v.get("init") is not None else None
+                        if li is not None and li.get("k") == "lambda" and len(li.get("ops", [])) == 1:
+                            lams[v["id"]] = li
+            flat = []
+            for st in items:
+                c0 = T.unwrap(u, st) if st.get("k") == "call" else None
+                r0 = T.unwrap(u, c0.get("recv")) if c0 is not None and c0.get("recv") is not None else None
+                if c0 is not None and c0.get("opcall") == "()" and r0 is not None and r0.get("k") == "ref" and r0.get("id") in lams and not c0.get("args"):
+                    b0 = lams[r0["id"]]["ops"][0].get("body") or {}
+                    flat.extend(b0.get("ch", []) if b0.get("k") == "compound" else [b0])
+                elif st.get("k") == "decl" and all((T.unwrap(u, v.get("init")) or {}).get("k") == "lambda" for v in st.get("ch", []) if v.get("k") == "var" and v.get("init") is not None):
+                    continue
+                else:
+                    flat.append(st)
+            items = flat
             key = "unregister::concrete_connection::~concrete_connection"
             # the unlink comes before the try block (declarations in front of it do not matter)
             eff = [x for x in items if x.get("k") not in ("decl", "null")]
